@@ -706,8 +706,9 @@ class Interp:
                 if m == "endswith":
                     return obj.endswith(args[0])
                 if m in ("isupper", "islower", "isdigit", "isalpha", "isalnum", "isspace", "isprintable", "isascii", "upper", "lower",
-                         "strip", "lstrip", "rstrip", "encode", "title", "capitalize") and not kwargs \
-                        and all(isinstance(a_, str) for a_ in args):
+                         "strip", "lstrip", "rstrip", "encode", "title", "capitalize", "removeprefix", "removesuffix", "partition", "rpartition",
+                         "split", "rsplit", "replace", "casefold", "swapcase", "zfill") and not kwargs \
+                        and all(isinstance(a_, (str, int)) and not isinstance(a_, bool) for a_ in args):
                     try:
                         return getattr(obj, m)(*args)
                     except (UnicodeError, LookupError):
